@@ -42,6 +42,10 @@ pub fn templates() -> Vec<(&'static str, ArgSpec)> {
     let mut rest = ArgSpec::pos("rest", 1);
     rest.num_args = Some((0, None));
     v.push(("pos_multi", rest));
+    let mut rd = ArgSpec::pos("rest", 1);
+    rd.num_args = Some((0, None));
+    rd.delimiter = Some(',');
+    v.push(("pos_multi_delim", rd));
     v
 }
 
@@ -72,6 +76,9 @@ fn valid_combo(picked: &[&str]) -> bool {
         return false;
     }
     if has("pos_multi") && (has("pos1") || has("pos_multi_second")) {
+        return false;
+    }
+    if has("pos_multi_delim") && (has("pos1") || has("pos_multi_second") || has("pos_multi")) {
         return false;
     }
     true
@@ -166,6 +173,9 @@ pub fn alphabet(c: &CmdSpec) -> Vec<Vec<u8>> {
     let mut shorts: Vec<char> = vec![];
     for a in &c.args {
         if a.is_positional() {
+            if a.delimiter.is_some() {
+                add(b"w,x".to_vec());
+            }
             continue;
         }
         let takes = a.act().takes_values();
